@@ -58,6 +58,30 @@ pub struct ScenarioSpec {
     pub display: Option<String>,
 }
 
+/// The harness's own evaluation of the few tag expressions it generates:
+/// `[not] @a [and|or [not] @b]` over tags written without the `@`.
+pub fn eval_tag_expr(expr: &str, tags: &[String]) -> bool {
+    let toks: Vec<&str> = expr.split_whitespace().collect();
+    let mut i = 0;
+    let mut term = |i: &mut usize| -> bool {
+        let neg = toks.get(*i) == Some(&"not");
+        if neg {
+            *i += 1;
+        }
+        let t = toks.get(*i).copied().unwrap_or("").trim_start_matches('@');
+        *i += 1;
+        let has = tags.iter().any(|x| x == t);
+        has != neg
+    };
+    let mut v = term(&mut i);
+    while let Some(op) = toks.get(i).copied() {
+        i += 1;
+        let r = term(&mut i);
+        v = if op == "and" { v && r } else { v || r };
+    }
+    v
+}
+
 /// Tag prefix carrying a scenario's identity when its shown name is shared with others.
 pub const SID_TAG: &str = "sid.";
 
@@ -187,6 +211,10 @@ pub struct RunnerCfg {
     pub cli_retry_filter: Option<String>,
     #[serde(default, skip_serializing_if = "Option::is_none")]
     pub builder_retry_filter: Option<String>,
+    /// `--tags`: only scenarios whose inherited tags satisfy the expression are handed to the runner
+    /// (world P gives it to `Cucumber` as `cli::Opts::tags_filter`, world A applies it in its parser).
+    #[serde(default, skip_serializing_if = "Option::is_none")]
+    pub tags_filter: Option<String>,
 }
 
 impl RunnerCfg {
